@@ -14,7 +14,8 @@ FLOORS = {"op=transpose": (50, 50), "op=T": (5, 5), "op=swapaxes": (50, 50), "op
           "op=squeeze": (20, 20), "op=repeat": (20, 20), "op=broadcast": (50, 50), "len=2": (500, 500), "ndim=3": (100, 100),
           "bcarrays": (10, 10)}
 
-KINDMAPS = [{"x": "i", "y": "i", "z": "i", "s": "i", "n": "i"}, {"x": "i", "y": "s", "z": "f", "s": "f", "n": "s"}]
+KINDMAPS = [{"x": "i", "y": "i", "z": "i", "s": "i", "n": "i"}, {"x": "i", "y": "s", "z": "f", "s": "f", "n": "s"},
+            {"x": "u", "y": "f", "z": "u", "s": "u", "n": "i"}]          # unsigned labels
 
 
 def tlc_jobs(tier, seed):
